@@ -94,6 +94,53 @@ def import_graphs(rng, n):
     return cases
 
 
+ZOO_PRELUDE = """var i int = 3
+var s string = "abc"
+var b bool = true
+var xs []int = []int{1, 2}
+var ss []string = []string{"a"}
+func fi() int {
+\treturn 1
+}
+func fs() string {
+\treturn "x"
+}
+func fxs() []int {
+\treturn []int{4}
+}
+func fss() []string {
+\treturn []string{"q"}
+}
+func f2() (int, string) {
+\treturn 1, "y"
+}
+func fv() {
+\tprint(1)
+}
+"""
+ZOO = ["i", "s", "b", "xs", "ss", "fi()", "fs()", "fxs()", "fss()", "f2()", "fv()", "1", '"l"', "true", "[]int{7}", "[]string{}",
+       "xs[0]", "s[0]", "s[0:1]", "len(xs)", "(i)", "i + 1", "@ls()", "nil", "undefined_name"]
+
+
+def builtin_near_misses(rng, limit):
+    """every builtin / operator position filled with every expression of a small zoo (well-typed and ill-typed alike):
+    the answer must be a script or an error, never a crash"""
+    forms, pairs = [], []
+    for a in ZOO:
+        forms += ["x := len(%s)" % a, "x := itoa(%s)" % a, "x := exists(%s)" % a, "x := read(%s)" % a, "x := input(%s)" % a, "print(%s)" % a,
+                  "panic(%s)" % a, "for _, v := range %s {\n\tprint(v)\n}" % a, "x := %s[0]" % a, "x := %s[0:1]" % a, "x := s[%s]" % a,
+                  "x := s[%s:%s]" % (a, a), "x := xs[%s]" % a, "xs[%s] = 1" % a, "xs[0] = %s" % a, "%s" % a, "x := %s" % a, "x, y := %s" % a,
+                  "i = %s" % a, "i, s = %s" % a, "i += %s" % a, "if %s {\n\tprint(1)\n}" % a, "switch %s {\ncase 1:\n\tprint(1)\n}" % a,
+                  "switch i {\ncase %s:\n\tprint(1)\n}" % a, "for %s {\n\tbreak\n}" % a, "x := !%s" % a, "x := fi(%s)" % a, "x := @ls(%s)" % a,
+                  "x := []int{%s}" % a, "x := []string{%s}" % a, "func g() int {\n\treturn %s\n}" % a, "func g() (int, string) {\n\treturn %s\n}" % a,
+                  "%s++" % a, "%s = 1" % a, "%s := 1" % a, "x := %s | @cat()" % a, "x := copy(%s, xs)" % a, "x := copy(xs, %s)" % a, "copy(%s, %s)" % (a, a)]
+        for c in ZOO:
+            pairs += ["x := %s + %s" % (a, c), "x := %s == %s" % (a, c), "x := %s && %s" % (a, c), "x := %s < %s" % (a, c), "write(%s, %s)" % (a, c),
+                      "write(s, %s, %s)" % (a, c), "copy(%s, %s)" % (a, c)]
+    rng.shuffle(pairs)
+    return [ZOO_PRELUDE + f + "\n" for f in forms + pairs[:limit]]
+
+
 def run(res, b, tier, seed):
     rng = random.Random(seed * 31337 + 13)
     pr = common.prove("C13")
@@ -127,6 +174,8 @@ def run(res, b, tier, seed):
         add("bytes", {"a.tsh": data})
     for files in import_graphs(rng, 150 if quick else 1500):
         add("imports", files)
+    for src in builtin_near_misses(rng, 500 if quick else 100000):
+        add("near-miss", {"a.tsh": src.encode()})
     add("missing-main", {"other.tsh": b"print(1)\n"})
     add("dir-as-main", {"a.tsh/x": b""})
     pipeline.run_pipe(b, cases, "tasw", timeout=120)
@@ -156,7 +205,7 @@ def run(res, b, tier, seed):
     res.coverage.update(dict(
         evaluations=len(cases),
         distinct_nontrivial=distinct,
-        rule="seed programs (repo tests, builtins, generated) with single/double token edits, random bytes / near-miss strings / token soups as "
+        rule="seed programs (repo tests, builtins, generated) with single/double token edits, every builtin/operator/statement position filled with every expression of a 25-element zoo (typed near misses), random bytes / near-miss strings / token soups as "
              "main file, import graphs over <=4 files incl. cycles, self-imports, missing files and std; every case runs lexer, parser and both "
              "targets in a worker with recover, a watchdog and crash attribution; distinct = distinct (class, AST-or-error prefix)",
         samples=[dict(kind=c.meta["kind"], files={k: v.decode("latin1")[:200] for k, v in c.files.items()}) for c in (cases[1], cases[-3], cases[len(cases) // 2])],
